@@ -48,6 +48,11 @@ Fixpoint re_table (tbl : list (string * string * bool)) (p s : string) : bool :=
   | (p', s', b) :: r => if String.eqb p p' && String.eqb s s' then b else re_table r p s
   end.
 
+(* the digit regex used by the generated declarations is decided natively, other patterns by table *)
+Definition all_digits (s : string) : bool := negb (String.eqb s "") && str_forall is_digit s.
+Definition re_std (tbl : list (string * string * bool)) (p s : string) : bool :=
+  if String.eqb p "[0-9]+" then all_digits s else re_table tbl p s.
+
 Record vcase := {
   vc_name : string; vc_lax : bool; vc_value : pyval; vc_bound : pyval;
   vc_re : list (string * string * bool); vc_expected : obs
